@@ -174,13 +174,15 @@ def newSess (ts : List String) : Option Sess × String :=
       | none => (some { kind := .ocp, u := u, m0 := nc == 0, logOf := fun f => some [f], garbage := [],
                         cs := CState.empty }, "ok")
     | _, _, _, _, _ => (none, "parse-error")
-  | ["dlocp", file, regfn, mask, nh, nc, _flags] =>
-    match mask.toNat?, nh.toNat?, nc.toNat? with
-    | some mask, some nh, some nc =>
+  | ["dlocp", file, regfn, mask, nh, nc, flags] =>
+    match mask.toNat?, nh.toNat?, nc.toNat?, flags.toNat? with
+    | some mask, some nh, some nc, some flags =>
       match load invalidAbiDerivesFromDynamicLoadError dlOCP.ctor (descrOf file regfn) with
       | .error e => (none, "err:" ++ errName e)
       | .ok warned =>
+        -- flags bit 0 / 1: the plug-in leaves the table member eval_h / eval_h_N null
         let tbl : FnTable := fun f =>
+          if f == "eval_h" then !bitOf flags 0 else if f == "eval_h_N" then !bitOf flags 1 else
           (match idxOf ocpMaskNames f with | some i => bitOf mask i | none => ocpAll.contains f)
         let u := dlNative dlOCP ["eval_proj_diff_g", "eval_proj_multipliers"] tbl (fun _ => true)
         match ocpCtorMissing u.provided nc nh nh with
@@ -188,7 +190,7 @@ def newSess (ts : List String) : Option Sess × String :=
         | none =>
           (some { kind := .dlocp, u := u, m0 := nc == 0, logOf := fun f => dlOCP.pluginCalls tbl f,
                   garbage := [], cs := CState.empty }, s!"ok warned={if warned then 1 else 0}")
-    | _, _, _ => (none, "parse-error")
+    | _, _, _, _ => (none, "parse-error")
   | _ => (none, "bad-kind")
 
 def c20Step (st : Option Sess) (line : String) : Option Sess × String :=
